@@ -514,6 +514,7 @@ def classify_numeric(case):
 
 STRUCT_CALLS = ["sfile.write", "sfile.write-text", "SFile.write", "SFile.write-text", "Recfile.write",
                 "Recfile.write-text", "recfile.write", "io.write", "io.write-text", "sfile.write-append",
+                "Recfile.write-readonly-text", "Recfile.write-readonly",
                 "extract_fields", "remove_fields", "add_fields", "add_fields-defaults", "reorder_fields",
                 "combine_fields", "copy_fields-source", "copy_fields_by_name-vals", "split_fields", "compare_arrays",
                 "to_native", "to_big_endian", "to_little_endian", "byteswap", "to_native-keep", "byteswap-keep",
@@ -526,7 +527,7 @@ def struct_cases(draw):
     text = name.endswith("-text")
     t = draw(T.tables(kind="text" if text else "binary", max_fields=5, max_rows=12, big_rows=0,
                       types=T.INTS + T.FLOATS, allow_mixed_order=True))
-    case = {"call": name, "table": t, "layout": draw(st.sampled_from(["contig", "strided", "offset"])),
+    case = {"call": name, "table": t, "layout": draw(st.sampled_from(["contig", "contig", "strided", "offset", "aligned"])),
             "delim": draw(st.sampled_from([",", " ", "\t"])), "pick": draw(st.integers(0, 10 ** 6))}
     if text:
         # the text writers' documented options, and an earlier write of a native table through the same handle
@@ -549,6 +550,16 @@ def _struct_view(case):
         base.view("u1")[:] = 7
         base[2:2 + n] = data
         return base[2:2 + n], base
+    if case["layout"] == "aligned":
+        # an aligned record layout (C struct style): padding bytes between the fields belong to the caller's
+        # buffer as well; they are filled with a pattern that must survive the call
+        adt = np.dtype({"names": list(data.dtype.names),
+                        "formats": [data.dtype.fields[nm][0] for nm in data.dtype.names]}, align=True)
+        base = np.zeros(n, dtype=adt)
+        base.view("u1")[:] = 0xAB
+        for nm in data.dtype.names:
+            base[nm] = data[nm]
+        return base, base
     base = data.copy()
     return base, base
 
@@ -598,6 +609,14 @@ def check_struct(case, ctx):
                     r.write(nat)
                 r.write(view)
             return None
+        if name in ("Recfile.write-readonly-text", "Recfile.write-readonly"):
+            # a write that fails (the file was opened for reading): the argument is left alone all the same
+            dl = delim if name.endswith("-text") else None
+            natv = np.ascontiguousarray(view).astype(view.dtype.newbyteorder("="))
+            with recfile.Recfile(fname, "w", delim=dl) as r:
+                r.write(natv)
+            with recfile.Recfile(fname, "r", dtype=natv.dtype, delim=dl, nrows=natv.size) as r:
+                return r.write(view)
         if name == "recfile.write":
             return recfile.write(fname, view)
         if name == "io.write":
